@@ -32,10 +32,18 @@ INFO = {
  "C11-2": ("C11", "rekey generates a classic secret when the current secret is deactivated", "a hybridized attribute disabled, update_msk, then rekey of a policy covering it"),
  "C13-2": ("C13", "Dimension::write writes attributes sorted by id (hierarchy order lost)", "a hierarchy whose rank order differs from its id order, round-tripped"),
  "C14-2": ("C14", "ser::read_vec guard rewritten as prefix + len > available (overflow at len = 2^64-1)", "a length prefix replaced by 2^64-1"),
+ "C08-3": ("C08", "refresh skips the integrity check when keep_old_rights is false", "a tampered key carrying a known id, refreshed without old secrets"),
+ "C12-3": ("C12", "EncryptedHeader::decrypt returns empty metadata without running AES-GCM when the ciphertext is exactly nonce + tag", "present-but-empty metadata combined with different authentication data or an altered nonce / tag"),
+ "C13-3": ("C13", "MasterSecretKey::read maps the activation flag 0 to true ('hardening' with a copy-pasted branch)", "a master key holding a disabled right, round-tripped, then rekey / prune (which rebuild the public key from the flags)"),
+ "C14-3": ("C14", "EncryptedHeader::decrypt uses split_at(NONCE_LENGTH) without the length guard", "a parsed header whose metadata was cut to 1..11 bytes, decrypted with an authorized key"),
+ "C15-3": ("C15", "find_matching_closing_parenthesis returns a character index again (chars().enumerate())", "a multi-byte character inside a parenthesised group"),
+ "C16-3": ("C16", "KemAc::encaps runs on a clone of the shared RNG and writes the advanced state back (non-atomic read-modify-write)", "concurrent encapsulations on one shared instance"),
+ "C17-3": ("C17", "generate_user_id pairs the random markers with the tracers in reversed order (rev().skip(1))", "a master key with tracing level >= 2 (3 or more tracers)"),
+ "C18-3": ("C18", "recaps fails unless every target of the original was re-opened", "a multi-target original one of whose targets became unrecoverable (rekey + prune, deletion)"),
  "C07-2": ("C07", "Encapsulations::read accepts any flag value other than 1 as 'classic' (flag turned into a bool, error branch removed)", "a classic encapsulation whose flag byte is changed in bits 1..6: it deserializes to the same object and still decapsulates"),
 }
 logs = ""
-for f in ("/var/tmp/seedeval.txt", "/var/tmp/seedeval2.txt", "/var/tmp/seedeval3.txt"):
+for f in ("/var/tmp/seedeval.txt", "/var/tmp/seedeval2.txt", "/var/tmp/seedeval3.txt", "/var/tmp/seedeval4.txt"):
     if os.path.exists(f):
         logs += open(f).read()
 # split per section
@@ -46,7 +54,9 @@ for ln in logs.split("\n"):
     m = re.match(r"=== (\S+)", ln)
     if m:
         key = m.group(1)
-        if key.startswith("/tmp/mut2/"):
+        if key.startswith("/tmp/mut3/"):
+            cur = key.split("/")[-1] + "-3"
+        elif key.startswith("/tmp/mut2/"):
             cur = key.split("/")[-1] + "-2"
         elif key.startswith("/tmp/mut/"):
             cur = key.split("/")[-1] + "-1"
@@ -59,7 +69,7 @@ confirm = {}
 for f in ("/var/tmp/confirm.txt", "/var/tmp/confirm2.txt"):
     if os.path.exists(f):
         for ln in open(f):
-            m = re.match(r"(C\d+(?:-2)?) \| (.*)", ln)
+            m = re.match(r"(C\d+(?:-\d)?) \| (.*)", ln)
             if m:
                 k = m.group(1) if "-" in m.group(1) else m.group(1) + "-1"
                 confirm[k] = m.group(2).strip()
